@@ -45,6 +45,18 @@ Theorem C10_former_crashes_are_parse_errors :
   = [2; 2; 2; 2; 2; 2]%N.
 Proof. vm_compute. reflexivity. Qed.
 
+(* ---- evaluation time: a literal or a function argument of the wrong kind never crashes ----
+   a date literal: the model of parse_datetime (compared with the real function on every run) ends, for EVERY text, in
+   an interval, a status-2 diagnostic, or hands the text to chrono_english (whose panics the source catches) *)
+From FS Require Import model.Datetime proofs.DatetimeProofs gen.FuncGen model.Funcs proofs.FuncsProofs.
+Theorem C10_date_literal_never_panics : forall now x,
+  match parse_datetime now x with Det (Panic _) => False | _ => True end.
+Proof. exact parse_datetime_never_panics. Qed.
+(* every modelled scalar function on EVERY argument string and argument list: a value or a status-2 diagnostic *)
+Theorem C10_function_arguments_never_panic : forall e now f arg args,
+  modelled f = true -> ext_sane e -> no_crash (get_value_gen e now f arg args).
+Proof. exact wrong_kind_never_panics. Qed.
+
 Print Assumptions C10_lexer_total.
 Print Assumptions C10_lexer_output_bounded.
 Print Assumptions C10_parser_total_tokens.
@@ -52,3 +64,5 @@ Print Assumptions C10_parser_total.
 Print Assumptions C10_parse_expr_total.
 Print Assumptions C10_statuses.
 Print Assumptions C10_former_crashes_are_parse_errors.
+Print Assumptions C10_date_literal_never_panics.
+Print Assumptions C10_function_arguments_never_panic.
